@@ -42,6 +42,9 @@ def install():
     mathops.np._srcmodule = symnp
     mathops.fft._srcmodule = symnp.fft
     mathops.ndimage._srcmodule = symnp.ndimage
+    import numbers
+    numbers.Integral.register(SInt)
+    numbers.Real.register(SReal)
     import math as _m
     import numpy as _n
     for name, mod in list(sys.modules.items()):
@@ -109,10 +112,24 @@ def Bool(name):
     return SBool(v)
 
 
-def Array(name, shape, kind='f', bits=64):
+def Array(name, shape, kind='f', bits=64, lo=None, hi=None):
+    """fresh input array.  lo/hi: bounds that hold for EVERY element (a universally quantified
+    precondition, instantiated at each element the execution touches)."""
     if kind == 'c' and bits == 64:
         bits = 128
-    return symnp.sym_array(name, tuple(shape), DT(kind, bits if kind != 'b' else None))
+    a = symnp.sym_array(name, tuple(shape), DT(kind, bits if kind != 'b' else None))
+    if lo is not None or hi is not None:
+        src = a._fn
+
+        def fn(ix, src=src):
+            v = src(ix)
+            if lo is not None:
+                ctx.add((v >= lo).z)
+            if hi is not None:
+                ctx.add((v <= hi).z)
+            return v
+        a._fn = fn
+    return a
 
 
 def idx(n, name):
@@ -248,3 +265,44 @@ def abs2(z):
 
 def stop_path():
     raise StopPath()
+
+
+class noise:
+    """install a noise model for np.random through prysm.mathops' backend shim.
+    kind='free': shot noise = expected electrons, read noise = 0 (noise sources switched off).
+    kind='havoc': arbitrary draws (poisson: integer >= 0, normal: real); arrays recorded on the handle."""
+    def __init__(self, kind):
+        self.kind = kind
+        self.shot = None
+        self.read = None
+
+    def _hook(self, which, params, size):
+        shp = symnp._shape(size)
+        if which == 'poisson':
+            if self.kind == 'free':
+                self.shot = symnp.broadcast_to(symnp.asarray(params).astype(symnp.float64), shp)
+            else:
+                a = symnp.sym_array('shot', shp, DT('i', 64), register=True)
+                src = a._fn
+
+                def fn(ix, src=src):
+                    v = src(ix)
+                    ctx.add(v.z >= 0)
+                    return v
+                a._fn = fn
+                self.shot = a
+            return self.shot
+        if self.kind == 'free':
+            self.read = symnp.zeros(shp)
+        else:
+            self.read = symnp.sym_array('read', shp, DT('f', 64), register=True)
+        return self.read
+
+    def __enter__(self):
+        install()
+        symnp.random.hook = self._hook
+        return self
+
+    def __exit__(self, *a):
+        symnp.random.hook = None
+        return False
